@@ -32,6 +32,18 @@ func CheckDetachedSignatures(keyring openpgp.KeyRing, signed func() io.Reader, s
 		if p.Tag != 2 {
 			return nil, fmt.Errorf("Not a signature: packet of type %d in a signature block", p.Tag)
 		}
+		/* a signature packet that does not parse (an empty one, say: the
+		 * reader below takes its early EOF for "no signature here") is
+		 * not somebody else's signature, it is no signature */
+		parsed, err := p.Parse()
+		if err != nil {
+			return nil, err
+		}
+		switch parsed.(type) {
+		case *packet.Signature, *packet.SignatureV3:
+		default:
+			return nil, fmt.Errorf("Not a signature: packet of type %d in a signature block", p.Tag)
+		}
 		var one bytes.Buffer
 		if err := p.Serialize(&one); err != nil {
 			return nil, err
